@@ -217,6 +217,7 @@ pub fn run(ctx: &mut Ctx) {
     ctx.floor("max-count.cases", 8);
     ctx.floor("soup.headers", 3_000_000);
     ctx.floor("long-lists.ok", 18);
+    ctx.floor("types.unknown-with-known-content", 200_000);
 
     // ------------------------------------------------ all 65536 types x 3 dispatchers
     ctx.sweep("all-types", 256, |ctx, idx| {
@@ -241,6 +242,25 @@ pub fn run(ctx: &mut Ctx) {
                     let a = if is_grease(t) { AExt::Grease(t, data) } else { AExt::Unknown(t, data) };
                     for (dn, d) in DISPATCHERS {
                         judge_single(ctx, dn, d, &a, if l == 5 { &[1, 2, 3] } else { &[] });
+                    }
+                }
+                // an unknown type carrying data that is well-formed content of a KNOWN type (a list of 16-bit
+                // values, a name list, ...): still Unknown / Grease with the data verbatim, whatever it looks like
+                let k = ((t as usize).wrapping_mul(7) + (t as usize >> 8)) % gen::EXT_GENERATORS;
+                for kk in [k, 6, 4, 18] {
+                    let shaped = gen::ext_variant(&mut rng, gen::TINY, kk);
+                    if matches!(shaped, AExt::Unknown(..) | AExt::Grease(..)) {
+                        continue;
+                    }
+                    let mut w = W::new();
+                    shaped.enc_data(&mut w);
+                    if w.b.len() > 65535 {
+                        continue;
+                    }
+                    let a = if is_grease(t) { AExt::Grease(t, w.b) } else { AExt::Unknown(t, w.b) };
+                    ctx.count("types.unknown-with-known-content");
+                    for (dn, d) in DISPATCHERS {
+                        judge_single(ctx, dn, d, &a, &[]);
                     }
                 }
             }
